@@ -3,6 +3,7 @@
 use crate::{
     compile::{Compile, CompileState},
     context::compile_context,
+    renaming::rename_shadowing_in_def,
     types::compile_ty,
 };
 use core_lang::syntax::{CodataDeclaration, names::Identifier};
@@ -30,10 +31,11 @@ pub fn compile_def(
     used_labels: &mut HashSet<Name>,
 ) -> VecDeque<core_lang::syntax::Def> {
     let mut used_vars = def.context.vars();
+    def.body.used_binders(&mut used_vars);
+    let def = rename_shadowing_in_def(def, &mut used_vars);
 
     let mut context = compile_context(def.context);
 
-    def.body.used_binders(&mut used_vars);
     // we sometimes create new top-level labels during the translation, so we need to collect them
     let mut def_plus_lifted_statements = VecDeque::new();
     let mut state: CompileState = CompileState {
@@ -91,9 +93,10 @@ pub fn compile_main(
     used_labels: &mut HashSet<Name>,
 ) -> VecDeque<core_lang::syntax::Def> {
     let mut used_vars = def.context.vars();
+    def.body.used_binders(&mut used_vars);
+    let def = rename_shadowing_in_def(def, &mut used_vars);
     let context = compile_context(def.context);
 
-    def.body.used_binders(&mut used_vars);
     // we sometimes create new top-level labels during the translation, so we need to collect them
     let mut def_plus_lifted_statements = VecDeque::new();
     let mut state: CompileState = CompileState {
